@@ -7,7 +7,7 @@ Local Open Scope nat_scope.
 Inductive case :=
 (* valid packet sequence: the packets (raw bytes; the first is CONNECT), the segmentation used
    (chunk sizes), the responses (type, id) expected per packet by construction, the responses observed *)
-| CSeg (packets : list (list N)) (chunks : list nat) (expected observed : list (N * N)) (closed ran : bool)
+| CSeg (maxsize : nat) (packets : list (list N)) (chunks : list nat) (expected observed : list (N * N)) (closed ran : bool)
 (* hostile stream: bystander still served, broker alive *)
 | CHostile (bystander_ok alive : bool)
 (* oversize header: announced size, configured maximum, bytes allocated by the process while handling it, closed? *)
@@ -23,18 +23,28 @@ Fixpoint list_eqb {A} (e : A -> A -> bool) (a b : list A) : bool :=
   end.
 Definition pair_eqb (a b : N * N) : bool := N.eqb (fst a) (fst b) && N.eqb (snd a) (snd b).
 Definition fres_bytes (r : fres) : list N := match r with Frame b => b | _ => [] end.
+Definition is_frame (r : fres) : bool := match r with Frame _ => true | _ => false end.
 
 Definition case_ok (c : case) : bool :=
   match c with
-  | CSeg pkts chunks expected observed closed ran =>
+  | CSeg maxsize pkts chunks expected observed closed ran =>
       let bytes := concat pkts in
       let n := S (length pkts) in
-      (* the model, reading with exactly this segmentation, recovers exactly the packets ... *)
-      list_eqb (list_eqb N.eqb) (map fres_bytes (fst (read_all n 4000 chunks ([], bytes)))) pkts
-      (* ... as does the independent frame splitter ... *)
-      && list_eqb (list_eqb N.eqb) (map fres_bytes (parse_all n 4000 bytes)) pkts
-      (* ... and the broker answered every packet, in order *)
-      && ran && negb closed && list_eqb pair_eqb expected observed
+      let frames := fst (read_all n maxsize chunks ([], bytes)) in
+      let k := length (filter is_frame frames) in               (* packets accepted before a rejection, if any *)
+      let rejected := negb (Nat.eqb k (length pkts)) in
+      (* the model, reading with exactly this segmentation, recovers exactly the packets up to the first one
+         above the Maximum Packet Size, which it rejects ... *)
+      list_eqb (list_eqb N.eqb) (map fres_bytes (filter is_frame frames)) (firstn k pkts)
+      && (if rejected then match last frames NeedMore with TooLarge => true | _ => false end else true)
+      (* ... as does the independent frame splitter, whatever the segmentation ... *)
+      && list_eqb (list_eqb N.eqb) (map fres_bytes (filter is_frame (parse_all n maxsize bytes))) (firstn k pkts)
+      && Nat.eqb (length (filter is_frame (parse_all n maxsize bytes))) k
+      (* ... and the broker answered every accepted packet, in order, and closed iff one was rejected
+         (the close may cut off answers that were still in the writer's queue: then a prefix of them) *)
+      && ran && Bool.eqb closed rejected
+      && (if rejected then list_eqb pair_eqb (firstn (length observed) (firstn k expected)) observed
+          else list_eqb pair_eqb expected observed)
   | CHostile by_ok alive => by_ok && alive
   | COversize announced maxsize allocated closed =>
       closed && N.ltb allocated (N.div announced 2)
